@@ -221,22 +221,29 @@ pub fn multiset(xs: impl Iterator<Item = String>) -> BTreeMap<String, usize> {
 
 /// Column order is whatever the header in the file says, provided the header is a permutation of the
 /// configured mapping keys (and sorted when `sorted` is set). Rows must then follow that order.
-pub fn csv_columns_from_header(format: &OutFormat, header: &str) -> Result<Vec<(String, Value)>, String> {
+/// `case_blind`: the policy went through the application configuration, whose loader (the config crate)
+/// may lower-case keys - column names included - before the application sees them (observed: sometimes it
+/// does, sometimes not); a policy given per run keeps its case. The header must name every mapping key
+/// once (ignoring case when `case_blind`), and be in byte-wise ascending order when `sorted` is set.
+pub fn csv_columns_from_header(format: &OutFormat, header: &str, case_blind: bool) -> Result<Vec<(String, Value)>, String> {
     match format {
         OutFormat::Json => Ok(vec![]),
         OutFormat::Csv { mapping, sorted } => {
+            let norm = |s: &str| if case_blind { s.to_lowercase() } else { s.to_string() };
             let names: Vec<&str> = header.split(',').collect();
-            let mut want: Vec<&str> = mapping.iter().map(|m| m.0.as_str()).collect();
-            let mut got = names.clone();
+            let mut want: Vec<String> = mapping.iter().map(|m| norm(&m.0)).collect();
+            let mut got: Vec<String> = names.iter().map(|n| norm(n)).collect();
             want.sort();
             got.sort();
             if want != got {
-                return Err(format!("header {:?} is not a permutation of the mapping keys {:?}", header, want));
+                return Err(format!("header {:?} is not a permutation of the mapping keys {:?}", header, mapping.iter().map(|m| &m.0).collect::<Vec<_>>()));
             }
-            if *sorted && names != want {
+            let mut in_order = names.clone();
+            in_order.sort();
+            if *sorted && names != in_order {
                 return Err(format!("header {:?} is not sorted although sorted=true", header));
             }
-            Ok(names.iter().map(|n| (n.to_string(), mapping.iter().find(|m| m.0 == *n).unwrap().1.clone())).collect())
+            Ok(names.iter().map(|n| (n.to_string(), mapping.iter().find(|m| norm(&m.0) == norm(n)).unwrap().1.clone())).collect())
         }
     }
 }
